@@ -44,6 +44,7 @@ type c03cred struct {
 	user, realm, pass, nonce               string
 	omitUser, omitRealm, omitNonce, omitMI bool
 	hmacMut                                func([]byte) []byte
+	rawKey                                 []byte // when non-nil: sign with exactly this key (e.g. the empty key)
 }
 
 func c03Build(method uint16, tid [12]byte, attrs func(b *wire.Builder), cr c03cred) []byte {
@@ -61,7 +62,11 @@ func c03Build(method uint16, tid [12]byte, attrs func(b *wire.Builder), cr c03cr
 		b.Add(wire.AttrNonce, []byte(cr.nonce))
 	}
 	if !cr.omitMI {
-		v := b.IntegrityValue(wire.LongTermKey(cr.user, cr.realm, cr.pass))
+		key := wire.LongTermKey(cr.user, cr.realm, cr.pass)
+		if cr.rawKey != nil {
+			key = cr.rawKey
+		}
+		v := b.IntegrityValue(key)
 		if cr.hmacMut != nil {
 			v = cr.hmacMut(v)
 		}
@@ -193,7 +198,7 @@ var c03Methods = []uint16{wire.MethodAllocate, wire.MethodRefresh, wire.MethodCr
 
 var c03Defects = []string{
 	"no-mi", "wrong-password", "hmac-truncated", "hmac-bitflip", "hmac-extended", "unknown-user", "other-user", "no-username", "no-realm",
-	"no-nonce", "random-nonce", "mutated-nonce", "foreign-nonce", "expired-nonce", "wrong-realm", "empty-user",
+	"no-nonce", "random-nonce", "mutated-nonce", "foreign-nonce", "expired-nonce", "wrong-realm", "empty-user", "guessable-key",
 }
 
 func runC03A(t *testing.T, rng *rand.Rand, rec *sim.Rec, tier string, caseNo int) {
@@ -298,6 +303,11 @@ func runC03A(t *testing.T, rng *rand.Rand, rec *sim.Rec, tier string, caseNo int
 			cr.hmacMut = func(v []byte) []byte { return append(v, byte(rng.Intn(256))) }
 		case "unknown-user":
 			cr.user, cr.pass = "mallory", "pw-a"
+		case "guessable-key":
+			// keys anybody can compute: the empty key, a key of zero bytes, MD5("::") - for a user the
+			// auth handler does not know and for one it knows
+			cr.user = pick(rng, []string{"mallory", "alice", ""})
+			cr.rawKey = pick(rng, [][]byte{{}, make([]byte, 16), wire.LongTermKey("", "", "")})
 		case "other-user":
 			// bob's perfectly valid credentials on alice's 5-tuple
 			cr.user, cr.pass = "bob", "pw-b"
